@@ -28,6 +28,7 @@ RULES_DOC.update({
     "R3": "xstream barrier: forwarded iff num_waiters > 1 (pthread), or sense-reversal protocol under the lock with release/acquire on the tag",
 })
 VARIANTS = ["no_pthread_barrier", "active_wait", "no_ext_thread"]
+QUICK_VARIANTS = ["no_pthread_barrier"]   # the fallback xstream barrier exists only there
 BL = "ABTI_barrier::lock"
 CNT, NW = "ABTI_barrier::counter", "ABTI_barrier::num_waiters"
 XCNT, XNW, XTAG = "ABTI_xstream_barrier::counter", "ABTI_xstream_barrier::num_waiters", "ABTI_xstream_barrier::tag"
